@@ -8,9 +8,11 @@
    key keeps only its persistent flags and disappears if none is left.
 
    Two writes coalesce: writing a non-empty value of the same length as the key's newest value,
-   when that newest value was written in the current level, replaces it (observable only through
-   SelectValueHistory).  A checkpoint is a saved copy of the current level; reverting restores
-   the copy.  No addresses, no log positions, no counters: Len/Size are computed from the map. *)
+   when that newest value was written in the current level AND after the latest checkpoint / revert
+   point ([lastcp0] = number of writes in the buffer at that moment, lowered by a Cleanup that cuts
+   below it), replaces it (observable only through SelectValueHistory / InspectStage order).
+   A checkpoint is a saved copy of the current level; reverting restores the copy; the tokens of a
+   released level stay valid in the level below.  No addresses, no log positions, no counters: Len/Size are computed from the map. *)
 From Verif Require Import Base.Lex MemBuf.Flags MemBuf.KMap MemBuf.Ops.
 
 Definition journal := list (key * val).     (* newest first *)
@@ -22,10 +24,11 @@ Record st0 := mk0 {
   dirty0  : bool;
   elimit0 : N;                         (* entry size limit *)
   blimit0 : N;                         (* buffer size limit *)
-  regs0   : list (list journal)        (* checkpoint registers, one per level, top first; oldest token first *)
+  regs0   : list (list journal);       (* checkpoint registers, one per level, top first; oldest token first *)
+  lastcp0 : option nat                 (* number of writes in the buffer at the latest Checkpoint / RevertToCheckpoint *)
 }.
 
-Definition init0 : st0 := mk0 [] [] [] false unlimited unlimited [[]].
+Definition init0 : st0 := mk0 [] [] [] false unlimited unlimited [[]] None.
 
 Definition top0 (s : st0) : journal := match stages0 s with j :: _ => j | [] => base0 s end.
 Definition lower0 (s : st0) : journal := match stages0 s with _ :: js => concat js ++ base0 s | [] => [] end.
@@ -33,13 +36,15 @@ Definition all0 (s : st0) : journal := concat (stages0 s) ++ base0 s.
 
 Definition with_top0 (s : st0) (j : journal) : st0 :=
   match stages0 s with
-  | _ :: js => mk0 (base0 s) (j :: js) (kf0 s) (dirty0 s) (elimit0 s) (blimit0 s) (regs0 s)
-  | [] => mk0 j [] (kf0 s) (dirty0 s) (elimit0 s) (blimit0 s) (regs0 s)
+  | _ :: js => mk0 (base0 s) (j :: js) (kf0 s) (dirty0 s) (elimit0 s) (blimit0 s) (regs0 s) (lastcp0 s)
+  | [] => mk0 j [] (kf0 s) (dirty0 s) (elimit0 s) (blimit0 s) (regs0 s) (lastcp0 s)
   end.
 Definition with_kf0 (s : st0) (kf : kmap flags) (d : bool) : st0 :=
-  mk0 (base0 s) (stages0 s) kf d (elimit0 s) (blimit0 s) (regs0 s).
+  mk0 (base0 s) (stages0 s) kf d (elimit0 s) (blimit0 s) (regs0 s) (lastcp0 s).
 Definition with_regs0 (s : st0) (r : list (list journal)) : st0 :=
-  mk0 (base0 s) (stages0 s) (kf0 s) (dirty0 s) (elimit0 s) (blimit0 s) r.
+  mk0 (base0 s) (stages0 s) (kf0 s) (dirty0 s) (elimit0 s) (blimit0 s) r (lastcp0 s).
+Definition with_lastcp0 (s : st0) (c : option nat) : st0 :=
+  mk0 (base0 s) (stages0 s) (kf0 s) (dirty0 s) (elimit0 s) (blimit0 s) (regs0 s) c.
 
 Fixpoint jreplace (k : key) (v : val) (j : journal) : journal :=
   match j with
@@ -51,10 +56,19 @@ Definition nonempty (v : val) : bool := match v with [] => false | _ => true end
 Definition coalesces (v0 v : val) : bool := nonempty v0 && Nat.eqb (length v0) (length v).
 
 (* a value write into the current level *)
+Fixpoint kpos (k : key) (j : journal) : nat :=
+  match j with
+  | [] => O
+  | (k', _) :: r => if bytes_eqb k k' then length j else kpos k r
+  end.
+(* the newest write of k was made after the latest checkpoint / revert point *)
+Definition unprotected0 (k : key) (s : st0) : bool :=
+  match lastcp0 s with None => true | Some c => Nat.ltb c (kpos k (concat (stages0 s) ++ base0 s)) end.
+
 Definition write0 (k : key) (v : val) (s : st0) : st0 :=
   let t := top0 s in
   match kfind k t with
-  | Some v0 => if coalesces v0 v then with_top0 s (jreplace k v t) else with_top0 s ((k, v) :: t)
+  | Some v0 => if coalesces v0 v && unprotected0 k s then with_top0 s (jreplace k v t) else with_top0 s ((k, v) :: t)
   | None => with_top0 s ((k, v) :: t)
   end.
 
@@ -102,8 +116,12 @@ Fixpoint undo0 (dropped remaining : journal) (kf : kmap flags) : kmap flags :=
 Definition depth0 (s : st0) : nat := length (stages0 s).
 
 Definition staging0 (s : st0) : st0 * out :=
-  (mk0 (base0 s) ([] :: stages0 s) (kf0 s) (dirty0 s) (elimit0 s) (blimit0 s) ([] :: regs0 s),
+  (mk0 (base0 s) ([] :: stages0 s) (kf0 s) (dirty0 s) (elimit0 s) (blimit0 s) ([] :: regs0 s) (lastcp0 s),
    RNat (S (depth0 s))).
+
+(* Release: the tokens of the released level stay valid in the level below (their saved copy grows by that level) *)
+Definition merge_regs0 (below : journal) (regs : list (list journal)) : list (list journal) :=
+  (hd [] (tl regs) ++ map (fun sv => sv ++ below) (hd [] regs)) :: tl (tl regs).
 
 Definition release0 (h : nat) (s : st0) : st0 * out :=
   match h with
@@ -113,8 +131,9 @@ Definition release0 (h : nat) (s : st0) : st0 * out :=
     match stages0 s with
     | [] => (s, RPanic)
     | j :: [] => (mk0 (j ++ base0 s) [] (kf0 s) (dirty0 s || negb (match j with [] => true | _ => false end))
-                      (elimit0 s) (blimit0 s) (tl (regs0 s)), RUnit)
-    | j :: j2 :: r => (mk0 (base0 s) ((j ++ j2) :: r) (kf0 s) (dirty0 s) (elimit0 s) (blimit0 s) (tl (regs0 s)), RUnit)
+                      (elimit0 s) (blimit0 s) (merge_regs0 (base0 s) (regs0 s)) (lastcp0 s), RUnit)
+    | j :: j2 :: r => (mk0 (base0 s) ((j ++ j2) :: r) (kf0 s) (dirty0 s) (elimit0 s) (blimit0 s)
+                           (merge_regs0 j2 (regs0 s)) (lastcp0 s), RUnit)
     end
   end.
 
@@ -127,14 +146,15 @@ Definition cleanup0 (h : nat) (s : st0) : st0 * out :=
     else match stages0 s with
          | [] => (s, RUnit)
          | j :: js => (mk0 (base0 s) js (undo0 j (concat js ++ base0 s) (kf0 s)) (dirty0 s)
-                           (elimit0 s) (blimit0 s) (tl (regs0 s)), RUnit)
+                           (elimit0 s) (blimit0 s) (tl (regs0 s))
+                           (match lastcp0 s with Some c => Some (Nat.min c (length (concat js ++ base0 s))) | None => None end), RUnit)
          end
   end.
 
 Definition reg0 (s : st0) : list journal := hd [] (regs0 s).
 
 Definition checkpoint0 (s : st0) : st0 * out :=
-  (with_regs0 s ((reg0 s ++ [top0 s]) :: tl (regs0 s)), RNat (length (reg0 s))).
+  (with_lastcp0 (with_regs0 s ((reg0 s ++ [top0 s]) :: tl (regs0 s))) (Some (length (all0 s))), RNat (length (reg0 s))).
 
 Definition revert0 (i : nat) (s : st0) : st0 * out :=
   match nth_error (reg0 s) i with
@@ -144,7 +164,7 @@ Definition revert0 (i : nat) (s : st0) : st0 * out :=
       let dropped := firstn (length t - length saved) t in
       let s1 := with_top0 s saved in
       let s2 := with_kf0 s1 (undo0 dropped (saved ++ lower0 s) (kf0 s)) (dirty0 s) in
-      (with_regs0 s2 (firstn (S i) (reg0 s) :: tl (regs0 s)), RUnit)
+      (with_lastcp0 (with_regs0 s2 (firstn (S i) (reg0 s) :: tl (regs0 s))) (Some (length (saved ++ lower0 s))), RUnit)
   end.
 
 (* ---- observers ---- *)
@@ -196,7 +216,7 @@ Definition step0 (s : st0) (o : op) : st0 * out :=
   | OCleanup h => cleanup0 h s
   | OCheckpoint => checkpoint0 s
   | ORevert i => revert0 i s
-  | OSetLimits e b => (mk0 (base0 s) (stages0 s) (kf0 s) (dirty0 s) e b (regs0 s), RUnit)
+  | OSetLimits e b => (mk0 (base0 s) (stages0 s) (kf0 s) (dirty0 s) e b (regs0 s) (lastcp0 s), RUnit)
   | _ => (s, obs0 o s)
   end.
 
